@@ -212,6 +212,29 @@ def mesh_problems(geo):
     return out
 
 
+def fits_fields(geo):
+    """Coordinates within the 10-column, two-decimal fields of the file format (a rotation or
+    translation of a geometry with seven-digit coordinates can leave them; the format then has no
+    way to carry the number, which is outside every round-trip claim)."""
+    sc = geo.unit_scale
+    def ok(v):
+        return -999999.99 * 0.999 < v / sc < 9999999.99 * 0.999
+    for n in geo.nodelist:
+        if not (ok(n.pos[0]) and ok(n.pos[1])):
+            return False
+    for c in geo.columnlist:
+        if c.centre_specified and not (ok(c.centre[0]) and ok(c.centre[1])):
+            return False
+    for l in geo.layerlist:
+        if not (ok(l.bottom) and ok(l.centre)):
+            return False
+    for w in geo.welllist:
+        for p in w.pos:
+            if not all(ok(x) for x in p):
+                return False
+    return True
+
+
 class Refused(Exception):
     """The library refused an operation loudly (naming convention exhausted): nothing is claimed
     about the object afterwards."""
@@ -458,6 +481,8 @@ class GeoMachine(Machine):
             for l in geo.layerlist:
                 if 0.0 < abs(c.surface - l.bottom) < 0.0101:
                     return
+        if not fits_fields(geo):
+            return
         fs = ctx.fs
         fs.begin_op(2000000)
         path = ROOT + 'probe_geo.dat'
@@ -502,7 +527,8 @@ class GeoMachine(Machine):
                 geo.block_order = order
         elif src == 'shipped':
             tier = self.ctx.knobs.get('tier')
-            i = 7 if tier != 'thorough' else (7, 7, 1, 3, 5, 6, 2, 4)[sub2 % 8]
+            i = (7, 7, 7, 5, 6)[sub2 % 5] if tier != 'thorough' and sub2 % 3 else \
+                (7, 7, 1, 3, 5, 6, 2, 4)[sub2 % 8]
             self.ctx.fs.put('shipped.dat', geo_build.shipped_bytes(i))
             geo = self.call(lambda: mg.mulgrid(ROOT + 'shipped.dat'), 'read')
             del self.ctx.fs.files['shipped.dat']
@@ -1054,8 +1080,12 @@ class GeoMachine(Machine):
         cols = self.pick_cols(ch[0] % max(1, len(geo.columnlist) - 1), ch[1])
         if ch[3] % 4 == 3:
             # keep everything but one interior column (a hole: nothing for check() to repair)
-            bn = set(n.name for n in geo.boundary_nodes)
-            inner = [c for c in geo.columnlist if not any(n.name in bn for n in c.node)]
+            try:
+                bn = set(n.name for n in geo.boundary_nodes)
+            except Exception:
+                bn = None              # (a mesh with connections missing has no boundary to find)
+            inner = [] if bn is None else \
+                [c for c in geo.columnlist if not any(n.name in bn for n in c.node)]
             if inner:
                 hole = inner[ch[0] % len(inner)]
                 cols = [c for c in geo.columnlist if c is not hole]
@@ -1197,6 +1227,9 @@ class GeoMachine(Machine):
         # (every geometry the machine builds has right-justified names; an op that creates
         # names of the other justification is what the round trip below exposes)
         if geo.orphans or not self.persist_pre_ok:
+            return False
+        if not fits_fields(geo):
+            ctx.probes['persist_skipped_coordinates_beyond_field'] += 1
             return False
         # the file carries two decimals: a surface within rounding distance of a layer boundary
         # (without sitting on it) would change the block structure -- outside the round-trip domain
